@@ -70,6 +70,8 @@ def gen_plan(wl, fr, idx):
                         'return_samples': wl.random() < 0.6}
         plan['prefit'] = wl.random() < 0.4
     plan['n_jobs'] = wl.choice(sorted({1, 2, 3, max(1, R - 1), R, R + 1, 2 * R + 1}) + [-1])
+    if wl.random() < 0.2:
+        plan['array_variant'] = wl.choice(('fortran', 'strided', 'f32'))
     plan['progress'] = wl.choice((None, None, 'tqdm', 'tqdm.notebook'))
     plan['tqdm'] = wl.choice(('absent', 'stub'))
     if wl.random() < 0.05 and R >= 2:
@@ -103,11 +105,24 @@ def method_of(settings):
     return settings.get('burst_method', 'cycles')
 
 
+def _variant(arr, v):
+    """Other memory layouts / dtypes of the same values (a seeded subset of runs)."""
+    if v == 'fortran':
+        return np.asfortranarray(arr)
+    if v == 'strided':                       # non-contiguous view into a larger buffer
+        base = np.zeros(arr.shape[:-1] + (2 * arr.shape[-1] + 1,))
+        base[..., 1::2] = arr
+        return base[..., 1::2]
+    if v == 'f32':
+        return arr.astype(np.float32)
+    return arr
+
+
 def execute(plan, tape):
     res = Result()
     band = plan['band']
     fs, f_range = band['fs'], tuple(band['f_range'])
-    sigs = np.array([build_signal(s, band) for s in plan['rows']])
+    sigs = _variant(np.array([build_signal(s, band) for s in plan['rows']]), plan.get('array_variant'))
     R = len(sigs)
     sigs0 = sigs.copy()
 
@@ -313,7 +328,8 @@ def shrink(plan):
                 del p['options']['shared'][k]
                 yield p
     for key, val in (('n_jobs', 1), ('n_jobs', 2), ('progress', None), ('tqdm', 'absent'),
-                     ('return_samples', True), ('prefit', False), ('alias_equal', False)):
+                     ('return_samples', True), ('prefit', False), ('alias_equal', False),
+                     ('array_variant', None)):
         if key in plan and plan[key] != val:
             p = copy.deepcopy(plan)
             p[key] = val
